@@ -1,6 +1,484 @@
-(* C18 - lemmas (all proofs of the property package live here). *)
+(* C18 - lemmas (all proofs of the property package live here).
+   Sections: VolMem at zero length; ZST / empty-array copies; stream adapters and stream forms at
+   count 0 (slice, region, guest); Guest.v empty-buffer forms; Dirty.v effects of zero-length
+   operations; the composed model run_C18 against ok_C18. *)
 From VM Require Import Prelude.MachInt Prelude.Outcome Prelude.Tok Prelude.C1314List Spec.C18 Suite.C18.
 From VM Require Impl.VolMem Impl.Guest Impl.Dirty Impl.Io Impl.IoGuest.
+From VM Require Proofs.C04.
+
+
+(* ---------- VolMem at zero *)
+Lemma takeN_dropN h : forall a, VolMem.takeN a h ++ VolMem.dropN a h = h.
+Proof. intros a. rewrite C04.takeN_firstn, C04.dropN_skipn. apply firstn_skipn. Qed.
+Lemma h_write_nil h a : VolMem.h_write h a [] = h.
+Proof. unfold VolMem.h_write. cbn [app VolMem.len length N.of_nat]. rewrite N.add_0_r. apply takeN_dropN. Qed.
+Lemma takeN_0 l : VolMem.takeN 0 l = [].
+Proof. destruct l; reflexivity. Qed.
+Lemma dropN_0 l : VolMem.dropN 0 l = l.
+Proof. destruct l; reflexivity. Qed.
+Lemma h_read_0 h a : VolMem.h_read h a 0 = [].
+Proof. unfold VolMem.h_read. apply takeN_0. Qed.
 
 Lemma vs_write_empty hb h s addr : VolMem.vs_write hb h s [] addr = (h, VolMem.Ok 0).
 Proof. reflexivity. Qed.
+Lemma vs_read_empty hb h s addr : VolMem.vs_read hb h s [] addr = ([], VolMem.Ok 0).
+Proof. reflexivity. Qed.
+Lemma vs_write_slice_empty hb h s addr : VolMem.vs_write_slice hb h s [] addr = (h, VolMem.Ok tt).
+Proof. reflexivity. Qed.
+Lemma vs_read_slice_empty hb h s addr : VolMem.vs_read_slice hb h s [] addr = ([], VolMem.Ok tt).
+Proof. reflexivity. Qed.
+Lemma as_slice_zst t v : VolMem.ty_size t = 0 -> VolMem.as_slice t v = [].
+Proof. intros H. unfold VolMem.as_slice. rewrite H. cbn. destruct (VolMem.ty_be t); reflexivity. Qed.
+Lemma vs_write_obj_zst hb h s t v addr : VolMem.ty_size t = 0 -> VolMem.vs_write_obj hb h s t v addr = (h, VolMem.Ok tt).
+Proof. intros H. unfold VolMem.vs_write_obj. rewrite as_slice_zst by exact H. reflexivity. Qed.
+Lemma vs_read_obj_zst hb h s t addr : VolMem.ty_size t = 0 -> VolMem.vs_read_obj hb h s t addr = VolMem.Ok 0.
+Proof. intros H. unfold VolMem.vs_read_obj. rewrite H. cbn. unfold VolMem.from_bytes. destruct (VolMem.ty_be t); reflexivity. Qed.
+
+
+Lemma vs_copy_to_zst m h s t buf : VolMem.ty_size t = 0 -> VolMem.vs_copy_to m h s t buf = Val (buf, VolMem.len buf).
+Proof. intros H. unfold VolMem.vs_copy_to. rewrite H. reflexivity. Qed.
+Lemma vs_copy_from_zst m h s t buf : VolMem.ty_size t = 0 -> VolMem.vs_copy_from m h s t buf = Val h.
+Proof. intros H. unfold VolMem.vs_copy_from. rewrite H. reflexivity. Qed.
+
+Lemma from_bytes_nil t : VolMem.from_bytes t [] = 0.
+Proof. unfold VolMem.from_bytes. destruct (VolMem.ty_be t); reflexivity. Qed.
+Lemma va_write_loop_zst t : VolMem.ty_size t = 0 -> forall vals h p, VolMem.va_write_loop h t p vals = h.
+Proof.
+  intros H vals. induction vals as [|v r IH]; intros h p; cbn [VolMem.va_write_loop]; [reflexivity|].
+  rewrite as_slice_zst by exact H. rewrite h_write_nil. apply IH.
+Qed.
+Lemma pmul_zero_r m s a : pmul m s a 0 = Val 0.
+Proof. unfold pmul. rewrite N.mul_0_r. reflexivity. Qed.
+Lemma pmul_zero_l m s a : pmul m s 0 a = Val 0.
+Proof. unfold pmul. rewrite N.mul_0_l. reflexivity. Qed.
+
+(* element copies of an array of zero-sized elements: no panic, heap untouched; copy_to reports
+   min(buffer length, array length) elements *)
+Lemma va_copy_from_zst m h a t buf : VolMem.ty_size t = 0 -> VolMem.va_copy_from m h a t buf = Val h.
+Proof.
+  intros H. unfold VolMem.va_copy_from. rewrite H. cbn [N.eqb]. replace (0 =? 1) with false by reflexivity.
+  rewrite pmul_zero_r. cbn [bind]. rewrite va_write_loop_zst by exact H. reflexivity.
+Qed.
+Lemma va_copy_to_zst m h a t buf : VolMem.ty_size t = 0 ->
+  exists b', VolMem.va_copy_to m h a t buf = Val (b', N.min (VolMem.len buf) (VolMem.va_nelem a)).
+Proof.
+  intros H. unfold VolMem.va_copy_to. rewrite H. replace (0 =? 1) with false by reflexivity.
+  rewrite pmul_zero_r. cbn [bind]. eexists. reflexivity.
+Qed.
+(* arrays of n = 0 elements of any size *)
+Lemma va_copy_from_n0 m h p t buf : VolMem.va_copy_from m h {| VolMem.va_addr := p; VolMem.va_nelem := 0 |} t buf = Val h.
+Proof.
+  unfold VolMem.va_copy_from. cbn [VolMem.va_nelem VolMem.va_addr].
+  destruct (VolMem.ty_size t =? 1).
+  - unfold VolMem.va_to_slice. cbn [VolMem.va_nelem VolMem.va_addr]. rewrite pmul_zero_l. cbn [bind VolMem.vs_size].
+    rewrite N.min_0_r. unfold VolMem.copy_to_volatile_slice. cbn [fst VolMem.vs_addr]. rewrite takeN_0, h_write_nil. reflexivity.
+  - rewrite pmul_zero_l. cbn [bind]. rewrite takeN_0. reflexivity.
+Qed.
+Lemma va_copy_to_n0 m h p t buf : VolMem.va_copy_to m h {| VolMem.va_addr := p; VolMem.va_nelem := 0 |} t buf = Val (buf, 0).
+Proof.
+  unfold VolMem.va_copy_to. cbn [VolMem.va_nelem VolMem.va_addr].
+  destruct (VolMem.ty_size t =? 1).
+  - unfold VolMem.va_to_slice. cbn [VolMem.va_nelem VolMem.va_addr]. rewrite pmul_zero_l. cbn [bind VolMem.vs_size].
+    rewrite N.min_0_r. unfold VolMem.copy_from_volatile_slice. rewrite h_read_0, dropN_0. reflexivity.
+  - rewrite pmul_zero_l. cbn [bind]. rewrite N.min_0_r. cbn [N.to_nat VolMem.va_read_loop app]. rewrite dropN_0. reflexivity.
+Qed.
+Lemma vr_store_zst h a t v : VolMem.ty_size t = 0 -> VolMem.vr_store h a t v = h.
+Proof. intros H. unfold VolMem.vr_store. rewrite as_slice_zst by exact H. apply h_write_nil. Qed.
+Lemma vs_copy_vs_empty h s d : VolMem.vs_size s = 0 \/ VolMem.vs_size d = 0 -> VolMem.vs_copy_to_volatile_slice h s d = h.
+Proof.
+  intros H. unfold VolMem.vs_copy_to_volatile_slice.
+  replace (N.min (VolMem.vs_size s) (VolMem.vs_size d)) with 0 by (destruct H as [H|H]; rewrite H; lia).
+  rewrite h_read_0. apply h_write_nil.
+Qed.
+(* geometry *)
+Lemma get_slice_cases (s : VolMem.vslice) off cnt : off + cnt < W64 ->
+  VolMem.vs_get_slice s off cnt =
+    if VolMem.vs_size s <? off + cnt then VolMem.Err VolMem.EOutOfBounds
+    else VolMem.Ok {| VolMem.vs_addr := VolMem.vs_addr s + off; VolMem.vs_size := cnt |}.
+Proof.
+  intros H. unfold VolMem.vs_get_slice, VolMem.vs_subslice, VolMem.compute_end_offset, VolMem.compute_offset, checked_add.
+  destruct (N.ltb_spec (off + cnt) W64); [|lia]. destruct (VolMem.vs_size s <? off + cnt); reflexivity.
+Qed.
+Lemma get_ref_zero (s : VolMem.vslice) : VolMem.vs_get_ref s 0 0 = Val (VolMem.Ok (VolMem.vs_addr s + 0)).
+Proof.
+  unfold VolMem.vs_get_ref. rewrite get_slice_cases by (rewrite W64_val; lia).
+  replace (VolMem.vs_size s <? 0 + 0) with false by (symmetry; apply N.ltb_ge; lia). reflexivity.
+Qed.
+Lemma get_array_ref_zero (s : VolMem.vslice) esz n : VolMem.vs_size s = n * esz -> n <= 64 -> esz <= 8 ->
+  VolMem.vs_get_array_ref s esz 0 n = Val (VolMem.Ok {| VolMem.va_addr := VolMem.vs_addr s + 0; VolMem.va_nelem := n |}).
+Proof.
+  intros Hs Hn He. unfold VolMem.vs_get_array_ref.
+  assert (Hm : n * esz <= 512) by nia.
+  destruct (N.leb_spec n ISZ_MAX) as [_|Hx]; [|unfold ISZ_MAX in Hx; lia].
+  destruct (N.leb_spec (n * esz) ISZ_MAX) as [_|Hx]; [|unfold ISZ_MAX in Hx; lia].
+  rewrite get_slice_cases by (rewrite W64_val; lia). rewrite N.add_0_l, Hs, N.ltb_irrefl.
+  cbn [bind passert VolMem.vs_size]. rewrite N.eqb_refl. reflexivity.
+Qed.
+
+
+Lemma mem_write_nil m off : mem_write m off [] = m.
+Proof. unfold mem_write. rewrite nlen_nil, N.add_0_r. cbn [app]. apply ntake_ndrop. Qed.
+Lemma set_pos_same st : Io.set_pos st (Io.s_pos st + 0) = st.
+Proof. destruct st. unfold Io.set_pos. cbn. rewrite N.add_0_r. reflexivity. Qed.
+
+(* a stream's position and length are u64 / usize values *)
+Definition st_wf (st : Io.sstate) : Prop := Io.s_pos st < W64 /\ nlen (Io.s_data st) < W64.
+
+Lemma padd_zero md s a : a < W64 -> padd md s a 0 = Val a.
+Proof. intros H. rewrite <- (N.add_0_r a) at 2. apply padd_Val. lia. Qed.
+
+Section Calls.
+Variables (md : mode) (st : Io.sstate) (m : list N) (v : Io.vslice).
+Hypothesis Hv : Io.vs_len v = 0.
+Hypothesis Hst : st_wf st.
+
+Lemma slice_read_zero : Io.slice_read_volatile st m v = Val ((st, m), Io.Ok 0).
+Proof.
+  unfold Io.slice_read_volatile. rewrite Hv. rewrite N.min_0_l. unfold Io.copy_to_volatile_slice.
+  rewrite ntake_0, mem_write_nil. cbn [passert bind]. replace (0 <=? nlen (Io.slice_rem st)) with true by (symmetry; apply N.leb_le; lia).
+  cbn [bind]. rewrite set_pos_same. reflexivity.
+Qed.
+Lemma cursor_read_zero : Io.cursor_read_volatile md st m v = Val ((st, m), Io.Ok 0).
+Proof.
+  unfold Io.cursor_read_volatile.
+  replace (N.min (Io.s_pos st) (nlen (Io.s_data st)) <=? nlen (Io.s_data st)) with true by (symmetry; apply N.leb_le; lia).
+  cbn [passert bind].
+  set (st' := {| Io.s_data := _; Io.s_pos := 0; Io.s_out := [] |}).
+  assert (E : Io.slice_read_volatile st' m v = Val ((st', m), Io.Ok 0)).
+  { unfold Io.slice_read_volatile. rewrite Hv, N.min_0_l. unfold Io.copy_to_volatile_slice.
+    rewrite ntake_0, mem_write_nil. replace (0 <=? nlen (Io.slice_rem st')) with true by (symmetry; apply N.leb_le; lia).
+    cbn [passert bind]. rewrite set_pos_same. reflexivity. }
+  rewrite E. cbn [bind]. rewrite padd_zero by apply Hst. cbn [bind].
+  replace (Io.set_pos st (Io.s_pos st)) with st by (destruct st; reflexivity). reflexivity.
+Qed.
+Lemma fd_read_zero : Io.read_volatile_raw_fd Io.file_read st m v = Val ((st, m), Io.Ok 0).
+Proof.
+  unfold Io.read_volatile_raw_fd, Io.file_read. rewrite Hv, ntake_0, nlen_nil, mem_write_nil, set_pos_same. reflexivity.
+Qed.
+Lemma mslice_write_zero : Io.mslice_write_volatile st m v = Val ((st, m), Io.Ok 0).
+Proof.
+  unfold Io.mslice_write_volatile. rewrite Hv, N.min_0_l. unfold Io.copy_from_volatile_slice, mem_read. rewrite ntake_0.
+  replace (0 <=? nlen (Io.slice_rem st)) with true by (symmetry; apply N.leb_le; lia). cbn [passert bind].
+  rewrite mem_write_nil, N.add_0_r. destruct st; reflexivity.
+Qed.
+Lemma vec_write_zero : Io.vec_write_volatile md st m v = Val ((st, m), Io.Ok 0).
+Proof.
+  unfold Io.vec_write_volatile. rewrite Hv. unfold Io.copy_from_volatile_slice, mem_read. rewrite ntake_0.
+  rewrite N.eqb_refl. cbn [passert bind]. rewrite padd_zero by apply Hst. cbn [bind]. rewrite app_nil_r.
+  destruct st; reflexivity.
+Qed.
+Lemma fd_write_zero : Io.write_volatile_raw_fd Io.file_write st m v = Val ((st, m), Io.Ok 0).
+Proof.
+  unfold Io.write_volatile_raw_fd, Io.file_write, mem_read. rewrite Hv, ntake_0, nlen_nil. reflexivity.
+Qed.
+End Calls.
+
+Lemma call_zero (rd : bool) md sk st m v : Io.vs_len v = 0 -> st_wf st ->
+  (if rd then rcall md sk else wcall md sk) st m v = Val ((st, m), Io.Ok 0).
+Proof.
+  intros Hv Hst. destruct rd; unfold rcall, wcall.
+  - destruct sk as [|[p|p|]]; auto using slice_read_zero, cursor_read_zero, fd_read_zero.
+  - destruct sk as [|[p|p|]]; auto using mslice_write_zero, vec_write_zero, fd_write_zero.
+Qed.
+
+(* stream forms on a slice: count 0 at any offset <= len is Ok(0) / Ok(()), stream and memory untouched *)
+Lemma s_upto_zero rd md sk self addr st m : st_wf st -> addr <= Io.vs_len self -> Io.vs_addr self + addr < W64 ->
+  s_upto rd md sk self addr st m 0 = Val ((st, m), Io.Ok 0).
+Proof.
+  intros Hst Ha Ho. unfold s_upto, IoGuest.vs_upto, Io.vs_offset, checked_add, checked_sub.
+  destruct (N.ltb_spec (Io.vs_addr self + addr) W64); [|lia].
+  destruct (N.leb_spec addr (Io.vs_len self)); [|lia].
+  unfold Io.vs_subslice, checked_add. cbn [Io.vs_len Io.vs_addr Io.vs_off]. rewrite N.min_0_r.
+  replace (0 + 0 <? W64) with true by reflexivity.
+  replace (Io.vs_len self - addr <? 0 + 0) with false by (symmetry; apply N.ltb_ge; lia).
+  unfold FUEL. cbn [Io.retry_eintr]. rewrite call_zero by (auto; reflexivity). reflexivity.
+Qed.
+(* ... and beyond the end it is an error (characterisation, not judged by the property) *)
+Lemma s_upto_beyond rd md sk self addr st m : Io.vs_len self < addr ->
+  exists e, s_upto rd md sk self addr st m 0 = Val ((st, m), Io.Err e).
+Proof.
+  intros Ha. unfold s_upto, IoGuest.vs_upto, Io.vs_offset, checked_add, checked_sub.
+  destruct (Io.vs_addr self + addr <? W64); [|eexists; reflexivity].
+  destruct (N.leb_spec addr (Io.vs_len self)); [lia|]. eexists; reflexivity.
+Qed.
+
+Lemma exact_zero (rd : bool) md sk st m sl : Io.vs_len sl = 0 -> Io.vs_addr sl < W64 -> st_wf st ->
+  (if rd then rexact md sk st m sl else wexact md sk st m sl) = Val ((st, m), Io.Ok tt).
+Proof.
+  intros Hv Ho Hst.
+  assert (D : forall ze call, Io.exact_volatile ze FUEL call st m sl = Val ((st, m), Io.Ok tt)).
+  { intros ze call. unfold Io.exact_volatile, Io.vs_offset, checked_add, checked_sub. rewrite N.add_0_r.
+    destruct (N.ltb_spec (Io.vs_addr sl) W64); [|lia]. replace (0 <=? Io.vs_len sl) with true by (symmetry; apply N.leb_le; lia).
+    unfold FUEL. cbn [Io.exact_loop Io.vs_len]. rewrite N.sub_0_r, Hv. reflexivity. }
+  destruct rd; unfold rexact, wexact.
+  - destruct sk as [|[p|p|]]; try apply D.
+    + unfold Io.slice_read_exact_volatile. rewrite Hv.
+      replace (nlen (Io.slice_rem st) <? 0) with false by (symmetry; apply N.ltb_ge; lia).
+      rewrite slice_read_zero by auto. reflexivity.
+    + unfold Io.cursor_read_exact_volatile.
+      replace (N.min (Io.s_pos st) (nlen (Io.s_data st)) <=? nlen (Io.s_data st)) with true by (symmetry; apply N.leb_le; lia).
+      cbn [passert bind]. unfold Io.slice_read_exact_volatile. rewrite Hv.
+      match goal with |- context [nlen (Io.slice_rem ?s) <? 0] =>
+        replace (nlen (Io.slice_rem s) <? 0) with false by (symmetry; apply N.ltb_ge; lia) end.
+      match goal with |- context [Io.slice_read_volatile ?s m sl] =>
+        assert (E : Io.slice_read_volatile s m sl = Val ((s, m), Io.Ok 0)) end.
+      { apply slice_read_zero; exact Hv. }
+      rewrite E. cbn [bind]. rewrite padd_zero by apply Hst. cbn [bind].
+      replace (Io.set_pos st (Io.s_pos st)) with st by (destruct st; reflexivity). reflexivity.
+  - destruct sk as [|[p|p|]]; try apply D.
+    unfold Io.mslice_write_all_volatile. rewrite mslice_write_zero by auto. cbn [bind]. rewrite Hv. reflexivity.
+Qed.
+Lemma s_exact_zero rd md sk self addr st m : st_wf st -> addr <= Io.vs_len self -> Io.vs_addr self + addr < W64 ->
+  s_exact rd md sk self addr st m 0 = Val ((st, m), Io.Ok tt).
+Proof.
+  intros Hst Ha Ho. unfold s_exact, Io.vs_subslice, checked_add. rewrite N.add_0_r.
+  destruct (N.ltb_spec addr W64); [|lia].
+  destruct (N.ltb_spec (Io.vs_len self) addr); [lia|].
+  apply exact_zero; auto.
+Qed.
+Lemma s_exact_beyond rd md sk self addr st m : Io.vs_len self < addr ->
+  exists e, s_exact rd md sk self addr st m 0 = Val ((st, m), Io.Err e).
+Proof.
+  intros Ha. unfold s_exact, Io.vs_subslice, checked_add. rewrite N.add_0_r.
+  destruct (addr <? W64); [|eexists; reflexivity].
+  destruct (N.ltb_spec (Io.vs_len self) addr); [|lia]. eexists; reflexivity.
+Qed.
+
+
+(* ---------- guest level streams *)
+Definition host_ok (r : IoGuest.region) : Prop := IoGuest.HBASE + IoGuest.g_moff r + IoGuest.g_len r < W64.
+
+Lemma to_region_addr_contains r a : IoGuest.contains r a = true ->
+  IoGuest.to_region_addr r a = Some (a - IoGuest.g_start r) /\ a - IoGuest.g_start r < IoGuest.g_len r.
+Proof.
+  unfold IoGuest.contains, IoGuest.to_region_addr, checked_sub. intros H. apply andb_true_iff in H. destruct H as [H1 H2].
+  rewrite H1, H2. split; [reflexivity|]. apply N.ltb_lt. exact H2.
+Qed.
+
+Lemma g_upto_zero (rd : bool) md sk L addr st m :
+  st_wf st -> Forall host_ok L ->
+  g_upto rd md sk L addr st m 0 =
+    match IoGuest.find_region L addr with
+    | Some _ => Val ((st, m), IoGuest.GOk 0)
+    | None => Val ((st, m), IoGuest.GErr IoGuest.GInvalidGuestAddress) end.
+Proof.
+  intros Hst HL. unfold g_upto. cbn [IoGuest.try_access].
+  destruct (IoGuest.find_region L addr) as [r|] eqn:F; [|reflexivity].
+  unfold IoGuest.find_region in F. apply find_some in F. destruct F as [Hin Hc].
+  destruct (to_region_addr_contains r addr Hc) as [E Hlt]. rewrite E.
+  rewrite psub_Val by lia. cbn [bind]. rewrite psub_Val by lia. cbn [bind]. rewrite N.sub_0_r, N.min_0_r.
+  rewrite Forall_forall in HL. specialize (HL r Hin). unfold host_ok in HL.
+  destruct rd.
+  - rewrite s_upto_zero; [|exact Hst| cbn [IoGuest.region_slice Io.vs_len]; lia | cbn [IoGuest.region_slice Io.vs_addr]; lia].
+    reflexivity.
+  - rewrite s_exact_zero; [|exact Hst| cbn [IoGuest.region_slice Io.vs_len]; lia | cbn [IoGuest.region_slice Io.vs_addr]; lia].
+    reflexivity.
+Qed.
+
+(* ---------- Guest.v at zero: for EVERY find_region implementation, layout and address *)
+Section G.
+Variable find : Guest.layout -> N -> option nat.
+Variable md : mode.
+Lemma gm_write_empty M a : Guest.gm_write find md M [] a = Val (M, inl 0).
+Proof. reflexivity. Qed.
+Lemma gm_read_empty M a : Guest.gm_read find md M [] a = Val ([], inl 0).
+Proof. reflexivity. Qed.
+Lemma gm_write_slice_empty M a : Guest.gm_write_slice find md M [] a = Val (M, inl tt).
+Proof. reflexivity. Qed.
+Lemma gm_read_slice_empty M a : Guest.gm_read_slice find md M [] a = Val ([], inl tt).
+Proof. reflexivity. Qed.
+Lemma gm_write_obj_empty M a : Guest.gm_write_obj find md M [] a = Val (M, inl tt).
+Proof. reflexivity. Qed.
+Lemma gm_read_obj_zst M a : Guest.gm_read_obj find md M 0 a = Val (inl []).
+Proof. reflexivity. Qed.
+End G.
+Lemma reg_write_empty r off : Guest.reg_write r [] off = (r, inl 0).
+Proof. reflexivity. Qed.
+Lemma reg_read_empty r off : Guest.reg_read r 0 off = inl [].
+Proof. reflexivity. Qed.
+
+(* ---------- Dirty.v: zero-length operations produce no effect or effects of mark length 0 *)
+Definition mlen0 (e : Dirty.eff) : Prop := Dirty.e_mlen e = 0 /\ Dirty.e_wn e = 0.
+
+Lemma mark_zero ps d off v : Dirty.mark ps d off 0 v = d.
+Proof. reflexivity. Qed.
+Lemma upd_nth_id {A} (f : A -> A) : (forall x, f x = x) -> forall l i, Dirty.upd_nth l i f = l.
+Proof.
+  intros Hf l. induction l as [|x t IH]; intros [|j]; cbn [Dirty.upd_nth]; try reflexivity.
+  - rewrite Hf. reflexivity.
+  - rewrite IH. reflexivity.
+Qed.
+Lemma apply_eff_zero rs e : Dirty.e_mlen e = 0 -> Dirty.apply_eff rs e = rs.
+Proof.
+  intros H. unfold Dirty.apply_eff. apply upd_nth_id. intros r. rewrite H, mark_zero.
+  destruct r as [a b c [|] d]; reflexivity.
+Qed.
+Lemma apply_effs_zero es : Forall mlen0 es -> forall rs, Dirty.apply_effs rs es = rs.
+Proof.
+  unfold Dirty.apply_effs. induction 1 as [|e es He _ IH]; intros rs; cbn [fold_left]; [reflexivity|].
+  rewrite apply_eff_zero by apply He. apply IH.
+Qed.
+
+Lemma weff_zero ri a rel : mlen0 (Dirty.weff ri a rel 0).
+Proof. split; reflexivity. Qed.
+
+(* the slice-level operations of the property, on ANY slice accessor *)
+Inductive zero_sop : Dirty.sop -> Prop :=
+| Z_write a : zero_sop (Dirty.OWrite 0 a) | Z_write_slice a : zero_sop (Dirty.OWriteSlice 0 a)
+| Z_read a : zero_sop (Dirty.ORead 0 a) | Z_read_slice a : zero_sop (Dirty.OReadSlice 0 a)
+| Z_copy_from k : zero_sop (Dirty.OCopyFrom 0 k) | Z_copy_to k : zero_sop (Dirty.OCopyTo 0 k)
+| Z_read_from a k : zero_sop (Dirty.OReadFrom 0 a k) | Z_read_exact a k : zero_sop (Dirty.OReadExactFrom 0 a k)
+| Z_read_fd a k : zero_sop (Dirty.OReadFromFd 0 a k false)
+| Z_write_to a : zero_sop (Dirty.OWriteTo 0 a) | Z_write_all a : zero_sop (Dirty.OWriteAllTo 0 a).
+
+Lemma sop_zero ri hm a o : Dirty.a_kind a = Dirty.KSlice -> zero_sop o ->
+  Forall mlen0 (Dirty.o_effs (Dirty.run_sop ri hm a o)).
+Proof.
+  intros K Z. unfold Dirty.run_sop. rewrite K. destruct Z; cbn [N.eqb]; try (constructor; fail).
+  - destruct (checked_sub (Dirty.a_len a) a0); cbn; [|constructor].
+    rewrite N.min_0_r, N.min_0_l. repeat constructor.
+  - destruct (checked_add a0 0); cbn; [|constructor].
+    destruct (Dirty.a_len a <? n); cbn; [constructor|].
+    replace (k <? 0) with false by (symmetry; apply N.ltb_ge; lia). repeat constructor.
+  - destruct (checked_sub (Dirty.a_len a) a0); cbn; [|constructor].
+    rewrite N.min_0_r, N.min_0_l. repeat constructor.
+  - destruct (checked_sub (Dirty.a_len a) a0); cbn; constructor.
+  - destruct (checked_add a0 0); cbn; [|constructor]. destruct (Dirty.a_len a <? n); cbn; constructor.
+Qed.
+(* typed reference to a zero-sized object; arrays of zero-sized elements or of no elements *)
+Lemma ref_zero ri hm a o : Dirty.a_kind a = Dirty.KRef -> Dirty.a_len a = 0 ->
+  Forall mlen0 (Dirty.o_effs (Dirty.run_sop ri hm a o)).
+Proof.
+  intros K L. unfold Dirty.run_sop. rewrite K. destruct o; cbn; try constructor.
+  - rewrite L. apply weff_zero. - constructor.
+Qed.
+Lemma arr_zero ri hm a esz n k (o : Dirty.sop) : Dirty.a_kind a = Dirty.KArr esz n -> Dirty.a_len a = n * esz ->
+  esz = 0 \/ n = 0 -> o = Dirty.OArrCopyFrom k \/ o = Dirty.OArrCopyTo k ->
+  Forall mlen0 (Dirty.o_effs (Dirty.run_sop ri hm a o)).
+Proof.
+  intros K L Z [O|O]; subst o; unfold Dirty.run_sop; rewrite K.
+  - destruct (esz =? 1) eqn:E1.
+    + apply N.eqb_eq in E1. destruct Z as [Z|Z]; [lia|]. subst. rewrite L. cbn. rewrite N.min_0_r. repeat constructor.
+    + cbn. constructor; [|constructor]. destruct Z as [Z|Z]; subst.
+      * rewrite N.mul_0_r. apply weff_zero.
+      * rewrite N.min_0_r. rewrite N.mul_0_l. apply weff_zero.
+  - destruct (esz =? 1); cbn; constructor.
+Qed.
+(* guest level *)
+Lemma gop_zero hm rs a k (o : Dirty.gop) :
+  o = Dirty.GWrite 0 a \/ o = Dirty.GWriteSlice 0 a \/ o = Dirty.GRead 0 a \/ o = Dirty.GReadFrom 0 a k ->
+  Dirty.o_effs (Dirty.run_gop hm rs o) = [].
+Proof.
+  intros [O|[O|[O|O]]]; subst o; cbn; try reflexivity.
+  rewrite N.min_0_l. destruct (Dirty.find_idx rs a 0); reflexivity.
+Qed.
+
+(* ------------------------------------------------------------------ packaged statements *)
+Lemma zero_len_slice_lemma hb h s addr t v : VolMem.ty_size t = 0 ->
+  VolMem.vs_write hb h s [] addr = (h, VolMem.Ok 0) /\
+  VolMem.vs_read hb h s [] addr = ([], VolMem.Ok 0) /\
+  VolMem.vs_write_slice hb h s [] addr = (h, VolMem.Ok tt) /\
+  VolMem.vs_read_slice hb h s [] addr = ([], VolMem.Ok tt) /\
+  VolMem.vs_write_obj hb h s t v addr = (h, VolMem.Ok tt) /\
+  VolMem.vs_read_obj hb h s t addr = VolMem.Ok 0.
+Proof.
+  intros H. repeat split; auto using vs_write_empty, vs_read_empty, vs_write_slice_empty, vs_read_slice_empty,
+    vs_write_obj_zst, vs_read_obj_zst.
+Qed.
+Lemma zero_len_slice_marks_lemma ri hm a addr rs : Dirty.a_kind a = Dirty.KSlice ->
+  let effs o := Dirty.o_effs (Dirty.run_sop ri hm a o) in
+  effs (Dirty.OWrite 0 addr) = [] /\ effs (Dirty.OWriteSlice 0 addr) = [] /\
+  effs (Dirty.ORead 0 addr) = [] /\ effs (Dirty.OReadSlice 0 addr) = [] /\
+  (forall o, zero_sop o -> Dirty.apply_effs rs (effs o) = rs).
+Proof.
+  intros K effs. unfold effs, Dirty.run_sop. rewrite K. repeat split; try reflexivity.
+  intros o Z. apply apply_effs_zero. pose proof (sop_zero ri hm a o K Z) as F. unfold Dirty.run_sop in F. rewrite K in F. exact F.
+Qed.
+Lemma as_volatile_slice_ok r : VolMem.mr_size r < W64 ->
+  VolMem.mr_as_volatile_slice r = Val {| VolMem.vs_addr := VolMem.mr_addr r + 0; VolMem.vs_size := VolMem.mr_size r |}.
+Proof.
+  intros H. unfold VolMem.mr_as_volatile_slice, VolMem.mr_get_slice, VolMem.compute_end_offset, VolMem.compute_offset, checked_add.
+  rewrite N.add_0_l. destruct (N.ltb_spec (VolMem.mr_size r) W64); [|lia]. rewrite N.ltb_irrefl. reflexivity.
+Qed.
+(* region level: GuestRegionMmap's Bytes impl = the same calls on as_volatile_slice().unwrap(), errors mapped *)
+Lemma zero_len_region_lemma hb h r addr t v : VolMem.mr_size r < W64 -> VolMem.ty_size t = 0 ->
+  exists s, VolMem.mr_as_volatile_slice r = Val s /\ VolMem.vs_size s = VolMem.mr_size r /\
+    VolMem.gm_res (snd (VolMem.vs_write hb h s [] addr)) = VolMem.Ok 0 /\ fst (VolMem.vs_write hb h s [] addr) = h /\
+    VolMem.gm_res (snd (VolMem.vs_read hb h s [] addr)) = VolMem.Ok 0 /\
+    VolMem.gm_res (snd (VolMem.vs_write_slice hb h s [] addr)) = VolMem.Ok tt /\ fst (VolMem.vs_write_slice hb h s [] addr) = h /\
+    VolMem.gm_res (snd (VolMem.vs_read_slice hb h s [] addr)) = VolMem.Ok tt /\
+    VolMem.gm_res (snd (VolMem.vs_write_obj hb h s t v addr)) = VolMem.Ok tt /\ fst (VolMem.vs_write_obj hb h s t v addr) = h /\
+    VolMem.gm_res (VolMem.vs_read_obj hb h s t addr) = VolMem.Ok 0 /\
+    (forall g off, Guest.reg_write g [] off = (g, inl 0) /\ Guest.reg_read g 0 off = inl []).
+Proof.
+  intros Hr Ht. eexists. split; [apply as_volatile_slice_ok; exact Hr|].
+  rewrite vs_write_obj_zst, vs_read_obj_zst by exact Ht. cbn. repeat split; reflexivity.
+Qed.
+Lemma zero_len_guest_lemma find md M addr :
+  Guest.gm_write find md M [] addr = Val (M, inl 0) /\
+  Guest.gm_read find md M [] addr = Val ([], inl 0) /\
+  Guest.gm_write_slice find md M [] addr = Val (M, inl tt) /\
+  Guest.gm_read_slice find md M [] addr = Val ([], inl tt) /\
+  Guest.gm_write_obj find md M [] addr = Val (M, inl tt) /\
+  Guest.gm_read_obj find md M 0 addr = Val (inl []).
+Proof. repeat split; reflexivity. Qed.
+Lemma zero_len_guest_marks_lemma hm rs addr :
+  Dirty.run_gop hm rs (Dirty.GWrite 0 addr) = Dirty.done 0 [] /\
+  Dirty.run_gop hm rs (Dirty.GWriteSlice 0 addr) = Dirty.done 0 [] /\
+  Dirty.run_gop hm rs (Dirty.GRead 0 addr) = Dirty.done 0 [].
+Proof. repeat split; reflexivity. Qed.
+
+Lemma zst_copy_noop_lemma m h t buf : VolMem.ty_size t = 0 ->
+  (forall s, VolMem.vs_copy_to m h s t buf = Val (buf, VolMem.len buf) /\ VolMem.vs_copy_from m h s t buf = Val h) /\
+  (forall a, (exists b', VolMem.va_copy_to m h a t buf = Val (b', N.min (VolMem.len buf) (VolMem.va_nelem a))) /\
+             VolMem.va_copy_from m h a t buf = Val h) /\
+  (forall a v, VolMem.vr_store h a t v = h).
+Proof.
+  intros H. repeat split; auto using vs_copy_to_zst, vs_copy_from_zst, va_copy_to_zst, va_copy_from_zst, vr_store_zst.
+Qed.
+Lemma empty_array_copy_noop_lemma m h p t buf :
+  VolMem.va_copy_to m h {| VolMem.va_addr := p; VolMem.va_nelem := 0 |} t buf = Val (buf, 0) /\
+  VolMem.va_copy_from m h {| VolMem.va_addr := p; VolMem.va_nelem := 0 |} t buf = Val h.
+Proof. split; [apply va_copy_to_n0|apply va_copy_from_n0]. Qed.
+Lemma zst_copy_marks_lemma ri hm a rs k :
+  (Dirty.a_kind a = Dirty.KSlice ->
+     Dirty.run_sop ri hm a (Dirty.OCopyFrom 0 k) = Dirty.done 0 [] /\ Dirty.run_sop ri hm a (Dirty.OCopyTo 0 k) = Dirty.done k []) /\
+  (forall esz n o, Dirty.a_kind a = Dirty.KArr esz n -> Dirty.a_len a = n * esz -> esz = 0 \/ n = 0 ->
+     o = Dirty.OArrCopyFrom k \/ o = Dirty.OArrCopyTo k ->
+     Dirty.apply_effs rs (Dirty.o_effs (Dirty.run_sop ri hm a o)) = rs) /\
+  (forall o, Dirty.a_kind a = Dirty.KRef -> Dirty.a_len a = 0 ->
+     Dirty.apply_effs rs (Dirty.o_effs (Dirty.run_sop ri hm a o)) = rs).
+Proof.
+  split; [|split].
+  - intros K. unfold Dirty.run_sop. rewrite K. split; reflexivity.
+  - intros esz n o K L Z O. apply apply_effs_zero. eapply arr_zero; eauto.
+  - intros o K L. apply apply_effs_zero. apply ref_zero; auto.
+Qed.
+
+Lemma zero_count_stream_slice_lemma (rd : bool) md sk self addr st m :
+  st_wf st -> Io.vs_addr self + addr < W64 ->
+  (addr <= Io.vs_len self ->
+     s_upto rd md sk self addr st m 0 = Val ((st, m), Io.Ok 0) /\
+     s_exact rd md sk self addr st m 0 = Val ((st, m), Io.Ok tt)) /\
+  (Io.vs_len self < addr ->
+     (exists e, s_upto rd md sk self addr st m 0 = Val ((st, m), Io.Err e)) /\
+     (exists e, s_exact rd md sk self addr st m 0 = Val ((st, m), Io.Err e))).
+Proof.
+  intros Hst Ho. split; intros Ha.
+  - split; [apply s_upto_zero|apply s_exact_zero]; auto.
+  - split; [apply s_upto_beyond|apply s_exact_beyond]; auto.
+Qed.
+Lemma zero_count_stream_guest_lemma (rd : bool) md sk L addr st m :
+  st_wf st -> Forall host_ok L ->
+  ((exists r, In r L /\ IoGuest.contains r addr = true) ->
+     g_upto rd md sk L addr st m 0 = Val ((st, m), IoGuest.GOk 0) /\
+     IoGuest.gm_exact_of (g_upto rd md sk L addr st m 0) 0 = Val ((st, m), IoGuest.GOk tt)) /\
+  ((forall r, In r L -> IoGuest.contains r addr = false) ->
+     g_upto rd md sk L addr st m 0 = Val ((st, m), IoGuest.GErr IoGuest.GInvalidGuestAddress)).
+Proof.
+  intros Hst HL. rewrite g_upto_zero by auto. split.
+  - intros [r [Hin Hc]]. destruct (IoGuest.find_region L addr) eqn:F; [split; reflexivity|].
+    unfold IoGuest.find_region in F. pose proof (find_none _ _ F r Hin) as X. cbn in X. congruence.
+  - intros Hn. destruct (IoGuest.find_region L addr) as [r|] eqn:F; [|reflexivity].
+    unfold IoGuest.find_region in F. apply find_some in F. destruct F as [Hin Hc]. rewrite (Hn r Hin) in Hc. discriminate.
+Qed.
